@@ -211,7 +211,7 @@ pub fn judge(_cfg: &Config, case: &Case, l: &mut Local) {
                             &format!("MT{mt}:{num}"),
                             "documented-option-rejected",
                             opt,
-                            format!("MT{mt}: field {num}{opt} with content valid for option {opt:?} is rejected while the same message with another documented option of field {num} is accepted: {}", e.to_string().chars().take(100).collect::<String>()),
+                            format!("MT{mt}: field {num}{opt} with content valid for option {opt:?} is rejected while the same message with another documented option of field {num}, or without that field, is accepted: {}", e.to_string().chars().take(100).collect::<String>()),
                             case,
                         );
                     }
@@ -339,7 +339,14 @@ pub fn run(cfg: &Config) -> i32 {
                 }
             }
             for ((num, opt, maximal), text) in &texts {
-                let alts: Vec<String> = texts.iter().filter(|((n2, o2, m2), _)| n2 == num && o2 != opt && m2 == maximal).map(|(_, t)| t.clone()).collect();
+                let mut alts: Vec<String> = texts.iter().filter(|((n2, o2, m2), _)| n2 == num && o2 != opt && m2 == maximal).map(|(_, t)| t.clone()).collect();
+                // and the same message without the fields written with this option (decides when the field is optional)
+                let tag = format!("{num}{opt}");
+                let toks = tok::tokenize(text).fields;
+                if toks.iter().any(|t| t.tag == tag) {
+                    let rest: Vec<Token> = toks.into_iter().filter(|t| t.tag != tag).collect();
+                    alts.push(tok::render(&rest, false, false));
+                }
                 cases.push(Case::Documented { mt: lay.mt.to_string(), num: num.clone(), opt: opt.clone(), text: text.clone(), alts });
             }
         }
